@@ -6,7 +6,7 @@ from collections import Counter
 from .. import coqenc as E
 from ..passes import Case, run_passes
 from ..runner import jval
-from ..valgen import Gen, copy_value, TYPES
+from ..valgen import Gen, copy_value, TYPES, spoil
 from ..condgen import CondGen
 from ..pathgen import PathGen
 from ..specgen import normalise_cond, normalise_path, nested_leaves
@@ -94,12 +94,21 @@ def fix_leaf(g, l):
         l.args = [g.r.choice(TYPES) for _ in range(g.r.randint(1, 3))]
 
 
-def impl_roundtrip(t, probes):
+def impl_roundtrip(t, probes, used=False):
     v = valida()
     c = t.build()
+    if used:
+        # a condition that has already filtered data serialises and compares as a new one does
+        for d in probes:
+            E.run_outcome(lambda d=d: c.filter(copy_value(d)))
     js = c.to_json_like()
     txt = json.dumps(js)
     js2 = json.loads(txt)
+    edited = copy.deepcopy(js)
+    spoil(js)                       # whatever the caller does with the result, the next serialisation is the same
+    js = c.to_json_like() if used else edited
+    if repr(js) != repr(edited):
+        raise AssertionError("second serialisation differs after the caller edited the first result")
     c2 = v.conditions.ConditionLike.from_json_like(js2)
     js3 = c2.to_json_like()
     same_behaviour = all(E.run_outcome(lambda d=d: list(c.filter(copy_value(d)).result)) ==
@@ -173,7 +182,7 @@ def run(tier, seed, model_ok, spec_ok, replay=None):
             continue
         # a data path nested inside a list literal (which the known-finding inputs rebuild to) is outside the serialiser model
         cases += [c1] if flags else [c1, c2]
-        full = E.run_outcome(lambda: impl_roundtrip(t, probes))
+        full = E.run_outcome(lambda: impl_roundtrip(t, probes, used=True))
         dist["ok" if full[0] == "ok" else "exc:" + full[1]] += 1
         if full[0] != "ok":
             direct.append({"kind": "direct", "flags": flags, "what": f"round trip raised {full[1]}", "term": t.descr()[:400]})
